@@ -21,17 +21,6 @@ def U(name, entry, enforce=None, replace=(), reach=(), **kw):
     return d
 
 
-# goto-cc lowers "return <String by value>" through a temporary that is released before the
-# caller's copy constructor / destructor run on it; with the result object's String operations
-# replaced by interface contracts the real result object is the untouched empty String, so these
-# obligations say nothing about the codec.  Excluded per unit, listed in evidence.
-RETURN_TEMP = [
-    (r"^(String|~String)\.pointer_dereference @~?String: dereference failure: (deallocated dynamic object|dead object) in (other|this)->data",
-     "front-end artefact: by-value String return temporary (copy ctor / dtor of the untouched empty result)"),
-    (r"^__delete_array\.precondition_instance @__delete_array: free argument must be dynamic object",
-     "front-end artefact: destructor of the by-value String return temporary"),
-]
-
 UNITS = [
     U("Unicode.length", "h_length", reach=["length.return"], funcs=["Unicode::length"]),
     U("Unicode.append", "h_append", (APPEND, "c_Unicode_append"), replace=[S_APPEND_CHAR], reach=["append.four", "append.reject"]),
@@ -40,14 +29,14 @@ UNITS = [
     U("Unicode.isValid", "h_isValid", (ISVALID, "c_Unicode_isValid"), reach=["isValid.return"],
       loops="contracts/unicode_isvalid.loops.json"),
     U("String.fromHex", "h_fromHex", None, replace=[S_RESIZE, S_MUT, MC], reach=["fromHex.return"],
-      loops="contracts/string_fromhex.loops.json", funcs=["String::fromHex"], exclude=RETURN_TEMP),
+      loops="contracts/string_fromhex.loops.json", funcs=["String::fromHex"]),
     U("String.fromBase64.safety", "h_fromBase64_safety", None, replace=[S_RESIZE, S_RESERVE, S_MUT, MC],
-      reach=["fromBase64_safety.return"], loops="contracts/string_frombase64.loops.json", funcs=["String::fromBase64"], exclude=RETURN_TEMP),
+      reach=["fromBase64_safety.return"], loops="contracts/string_frombase64.loops.json", funcs=["String::fromBase64"]),
 ] + [
     U("String.fromBase64.roundtrip.%dbytes" % n, "h_fromBase64_roundtrip", None, replace=[S_RESIZE, S_RESERVE, S_MUT, MC],
       reach=["fromBase64_roundtrip.return"], defs=["NV_B64_BYTES=%d" % n], kind="bounded",
       bound="%d source bytes (content symbolic), RFC 4648 encoding built by the harness" % n, funcs=["String::fromBase64"],
-      cbmc=["--unwind", "%d" % (4 * ((n + 2) // 3) + 2), "--unwinding-assertions"], exclude=RETURN_TEMP)
+      cbmc=["--unwind", "%d" % (4 * ((n + 2) // 3) + 2), "--unwinding-assertions"])
     for n in (1, 2, 3, 4, 5, 6)
 ]
 TRUSTED = ["cbmc 6.11.0 / goto-instrument DFCC / CaDiCaL", "goto-cc C++ front end; String.hpp member subset (compat rules R2-R4), "
